@@ -98,6 +98,11 @@ func genModuleWorkspace(r *lib.Rng) map[string]string {
 			}
 		}
 	}
+	if r.Chance(1, 2) {
+		// a member named like the table itself: a reference of the member is not a reference of the table
+		fields = append(fields, "M")
+		mod = append(mod, "M.M = 7")
+	}
 	if len(funcs) > 0 {
 		mod = append(mod, "function M.last()", "  return M."+funcs[r.Intn(len(funcs))]+"(1)", "end")
 	}
